@@ -48,6 +48,10 @@ def simple_case(entry, doc, exts, pre, strict):
 
 
 def run(ck, rng):
+    iok, iinfo = instance_obligation()
+    ck.extra["instance"] = iinfo
+    if not iok:
+        ck.extra["instance_failed"] = True
     exe = build_godriver()
     scen = []
     n = 350 if ck.tier == "quick" else 9000
@@ -179,7 +183,7 @@ def run(ck, rng):
             if tag:
                 rep["finding"] = tag
             ck.violation(rep)
-    return None
+    return ('instance', iinfo.get('failure', '')) if not iok else None
 
 
 def single_elem_ok(n):
